@@ -494,16 +494,21 @@ func runAttempt(t testing.TB, sc schedule) (res *attemptResult, setupErr error) 
 			if p == 0 && s == 0 {
 				force = "commit-split" // every schedule meets the one-commits-others-change-view situation
 			}
-			c := genStep(a.sr, n, f, blockTime, lag, cl.validatorNodes(), true, force)
 			want := 2 + a.sr.Intn(3)
+			crossing := force != "" && cfg.SwitchTo > 0 && cfg.SwitchAt <= 7 && mx <= cfg.SwitchAt
+			if crossing {
+				// an early change of the validator count is crossed while every
+				// height is settled at a later view, so that the late primaries
+				// of the old set take their turn at the switch height
+				force = "lost-proposal"
+				want = max(want, int(cfg.SwitchAt+1-mx))
+			}
+			c := genStep(a.sr, n, f, blockTime, lag, cl.validatorNodes(), true, force)
 			cap := 30 * blockTime
 			if c.Quorumless {
 				cap = 12 * blockTime
 			}
-			if force != "" && cfg.SwitchTo > 0 && cfg.SwitchAt <= 7 && mx <= cfg.SwitchAt {
-				// an early change of the validator count is crossed while views
-				// change, so that late primaries of the old set take their turn
-				want = max(want, int(cfg.SwitchAt+1-mx))
+			if crossing {
 				cap = time.Duration(want) * 10 * blockTime
 			}
 			a.step(c, want, cap)
